@@ -67,12 +67,37 @@ func fnBetween(args []object.Object) object.Object {
 	min := args[1]
 	max := args[2]
 
-	// val < min, or val > max?
-	if numericLess(val, min) || numericLess(max, val) {
-		return &object.Boolean{Value: false}
+	// min <= val and val <= max, exactly as the `<=` operator would say
+	// (so that a value which is not a number lies in no interval).
+	if numericLessOrEqual(min, val) && numericLessOrEqual(val, max) {
+		return &object.Boolean{Value: true}
 	}
 
-	return &object.Boolean{Value: true}
+	return &object.Boolean{Value: false}
+}
+
+// numericLessOrEqual reports whether the number a is at most the number b,
+// comparing two integers as integers and anything else as floats - just
+// as the `<=` operator does.
+func numericLessOrEqual(a object.Object, b object.Object) bool {
+	ai, aInt := a.(*object.Integer)
+	bi, bInt := b.(*object.Integer)
+	if aInt && bInt {
+		return ai.Value <= bi.Value
+	}
+
+	var af, bf float64
+	if aInt {
+		af = float64(ai.Value)
+	} else {
+		af = a.(*object.Float).Value
+	}
+	if bInt {
+		bf = float64(bi.Value)
+	} else {
+		bf = b.(*object.Float).Value
+	}
+	return af <= bf
 }
 
 // isNumber reports whether the object is an integer or a float.
